@@ -146,6 +146,27 @@ def run(ctx):
         judge(ctx, H.impl_run, streams[si][0], lim, segs1, ones[si], im, "request")
     ctx.sample({"suite": "request", "stream": streams[-1][0].hex(), "lim": list(streams[-1][1]), "n_segmentations": len(streams[-1][2])})
     ctx.close_suite("request-parser-model", ran)
+    # a consumer reading the body CONCURRENTLY (as BaseRequest.read() does) must get the same bytes
+    # whatever the segmentation: bodies delivered piecewise between reads
+    nc = 0
+    for si, (s, lim, segs) in enumerate(streams):
+        if si % (5 if ctx.quick else 2) or si not in ones or not ones[si]["outcome"].startswith("OK"):
+            continue
+        full = [m for m in ones[si]["msgs"]]
+        for segs1 in segs[1:4] + ([segs[-1]] if len(segs) > 4 else []):
+            got = H.impl_run_consumed(segs1, lim)
+            nc += 1
+            if not got["outcome"].startswith("OK"):
+                continue
+            for ref, g in zip(full, got["msgs"]):
+                # a body that the one-shot reading delivers completely must be read back identically
+                if g["finished"] and ref["eof"] and ref["exc"] is None and g["data"] != ref["data"]:
+                    ctx.violation({"parser": "request", "stream": s.hex(), "lim": list(lim), "segs": [x.hex() for x in segs1],
+                                   "kind": "concurrent-consumer", "one_shot_outcome": ones[si]["outcome"], "split_outcome": got["outcome"]},
+                                  f"a consumer reading between the reads gets {len(g['data']) // 2} body bytes and end-of-body, "
+                                  f"the one-shot reading delivers {len(ref['data']) // 2}")
+                    break
+    ctx.count("suite:concurrent-consumer", nc)
     # responses: implementation self-consistency only
     nr = 200 if ctx.quick else 3000
     ranr = 0
@@ -174,6 +195,10 @@ def replay(ctx, case):
     s = bytes.fromhex(case["stream"])
     lim = tuple(case["lim"])
     segs = [bytes.fromhex(x) for x in case["segs"]]
+    if case.get("kind") == "concurrent-consumer":
+        one, got = H.impl_run([s], lim), H.impl_run_consumed(segs, lim)
+        bad = any(g["finished"] and r["eof"] and r["exc"] is None and g["data"] != r["data"] for r, g in zip(one["msgs"], got["msgs"]))
+        return {"one_shot": one["outcome"], "consumed": got, "violates": bad}
     runner = H.impl_run if case.get("parser", "request") == "request" else (lambda sg, lm: H.impl_run_response(sg, lm, eof=False))
     one, seg = runner([s], lim), runner(segs, lim)
     why = H.consistent(one, seg)
